@@ -97,9 +97,10 @@ class Server(fakenet.BaseServer):
 
 
 class Run(object):
-    def __init__(self, exchanges, warc=False):
+    def __init__(self, exchanges, warc=False, dedup=()):
         self.exchanges = exchanges
         self.warc = warc
+        self.dedup = sorted(set(dedup))      # exchanges the URL table declares "seen before with this payload"
         self.ev = []
         self.x = 0
         self.cur_ep = None
@@ -167,8 +168,18 @@ class Run(object):
         recorder = None
         if self.warc:
             from wpull.warc.recorder import WARCRecorder, WARCRecorderParams
+            run = self
+
+            class Table(object):
+                """What --warc-dedup loads from an older CDX: (url, payload digest) -> record id."""
+                def get_revisit_id(self, url, digest):
+                    for x in run.dedup:
+                        if url == url_of(x) and digest:
+                            return '<urn:uuid:00000000-0000-4000-8000-%012d>' % x
+                    return None
             recorder = WARCRecorder(os.path.join(tmp, 'out'),
-                                    params=WARCRecorderParams(compress=False, temp_dir=tmp, log=False, digests=True))
+                                    params=WARCRecorderParams(compress=False, temp_dir=tmp, log=False, digests=True,
+                                                              url_table=Table() if self.dedup else None))
             recorder.listen_to_http_client(client)
         try:
             for x in range(1, len(self.exchanges) + 1):
@@ -189,7 +200,12 @@ class Run(object):
             elif kind == 'exc':
                 raise val
             if self.warc:
-                self._read_warc(os.path.join(tmp, 'out.warc'))
+                try:
+                    self._read_warc(os.path.join(tmp, 'out.warc'))
+                except (ValueError, KeyError, IndexError) as e:
+                    # an archive that cannot be read back is an observation (clause WarcParses), not a harness crash
+                    self.log(e='warc_bad', why=str(e)[:120])
+                    self.log(e='warc_end')
         finally:
             if tmp:
                 shutil.rmtree(tmp, ignore_errors=True)
@@ -249,7 +265,7 @@ def mon_trace(run, prop):
             if f in e:
                 e[f] = list(e[f])
         ev.append(e)
-    return {'prop': prop, 'msgs': [M.to_json_msg(ex['cm']) for ex in run.exchanges],
+    return {'prop': prop, 'dedup': list(getattr(run, 'dedup', [])), 'msgs': [M.to_json_msg(ex['cm']) for ex in run.exchanges],
             'urls': [url_of(x + 1) for x in range(len(run.exchanges))], 'ev': ev}
 
 
